@@ -9,6 +9,7 @@ import (
 	"reflect"
 	"strings"
 	"sync"
+	"sync/atomic"
 
 	"github.com/ipfs/go-cid"
 	"github.com/libp2p/go-libp2p/core/crypto"
@@ -714,7 +715,7 @@ func concRaceSub(prop string) *engine.Sub {
 		NewCase: func() any { return &concRaceCase{} },
 		Run: func(ctx *engine.Ctx, c any) {
 			cs := c.(*concRaceCase)
-			args := []string{"test", "-tags", "verif", "-race", "-count=1", "-json", "-run", "TestConcCalls"}
+			args := []string{"test", "-vet=off", "-tags", "verif", "-race", "-count=1", "-json", "-run", "TestConcCalls"}
 			if ov := os.Getenv("VERIF_OVERLAY"); ov != "" {
 				args = append(args, "-overlay", ov)
 			}
@@ -793,18 +794,33 @@ func concRaceSub(prop string) *engine.Sub {
 	}
 }
 
-// manySelectors parses n distinct valid selectors and reports how many came back printing as they
-// were written: enough distinct inputs to fill, rotate and evict whatever table a parser may keep.
-func manySelectors(n int) string {
+// manySelectors parses n selectors never seen before in this process (enough distinct inputs to fill,
+// rotate and evict whatever table a parser may keep), then parses again the n it introduced on its
+// previous invocation (entries that have aged by one generation), and reports how many of the 2n came
+// back printing as they were written.
+var selectorBatch [4]atomic.Int64
+
+func manySelectors(slot, n int) string {
+	base := selectorBatch[slot].Add(int64(n)) - int64(n)
 	ok := 0
-	for i := 0; i < n; i++ {
-		t := fmt.Sprintf(".k%04d[%d]", i, i%7)
+	one := func(i int64) {
+		t := fmt.Sprintf(".k%d_%07d[%d]", slot, i, i%7)
 		s, err := selector.Parse(t)
 		if err == nil && s.String() == t {
 			ok++
 		}
 	}
-	return fmt.Sprintf("%d/%d", ok, n)
+	for i := base; i < base+int64(n); i++ {
+		one(i)
+	}
+	for i := base - int64(n); i < base; i++ {
+		if i >= 0 {
+			one(i)
+		} else {
+			ok++
+		}
+	}
+	return fmt.Sprintf("%d/%d", ok, 2*n)
 }
 
 func c09ConcSub() *engine.Sub {
@@ -872,8 +888,12 @@ func c09ConcSub() *engine.Sub {
 					return fmt.Sprint(s.String(), n != nil, err != nil)
 				})})
 			}
-			cs = append(cs, engine.Call{Name: "selector.Parse(1500 distinct)", Want: "1500/1500", Run: guard(func() string { return manySelectors(1500) })})
-			cs = append(cs, engine.Call{Name: "selector.Parse(first 600 again)", Want: "600/600", Run: guard(func() string { return manySelectors(600) })})
+			// batches small and large relative to any plausible table size, so that the previous batch is
+			// sometimes still current, sometimes aged by one generation, sometimes gone
+			for slot, n := range []int{40, 300, 700, 1100} {
+				slot, n := slot, n
+				cs = append(cs, engine.Call{Name: fmt.Sprintf("selector.Parse(%d new + the previous %d)", n, n), Want: fmt.Sprintf("%d/%d", 2*n, 2*n), Run: guard(func() string { return manySelectors(slot, n) })})
+			}
 			for _, d := range []string{"did:key:z6MkhaXgBZDvotDkL5257faiztiGiC2QtKLGpbnnEGta2doK", "did:key:z", "did:key:zQ3shokFTS3brHcDQrn82RUDfCZESWL1ZdCEJwekUDPQiYBme", "did:key:z6Mk"} {
 				d := d
 				cs = append(cs, engine.Call{Name: "did.Parse+PubKey(" + d[:min(len(d), 16)] + ")", Run: guard(func() string {
